@@ -99,6 +99,8 @@ def check_pointwise(desc):
     labels = ["pointwise", kind]
     if not np.all(sg.requested_support(g, kw)):
         labels.append("segment")
+    if len(set(np.asarray(space.normal_multipliers)[np.asarray(space.support)].tolist())) > 1:
+        labels.append("mixed_normal_multipliers")
     nontrivial = bool(desc["mesh"].get("edits")) or desc["mesh"].get("amp", 0) > 0
     return {"nontrivial": nontrivial, "labels": labels, "measured": {"worst_rel": worst}}
 
@@ -323,8 +325,12 @@ def strategy(spec):
     if spec["check"] == "pointwise":
         @st.composite
         def s(draw):
-            return {"mesh": draw(meshes(40)), "space": draw(sg.space_descs(spec["kinds"])), "cseed": draw(st.integers(0, 999)),
-                    "complex": draw(st.booleans())}
+            mesh, sd = draw(meshes(40)), draw(sg.space_descs(spec["kinds"], swapped=True))
+            if sd.get("swapped") and (mesh["domains"]["mode"] == "all0" or mesh["domains"]["n"] < 2):
+                # normals swapped on a proper subset of the domains (mixed normal multipliers)
+                mesh["domains"]["mode"] = "patch"
+                mesh["domains"]["n"] = draw(st.integers(2, 3))
+            return {"mesh": mesh, "space": sd, "cseed": draw(st.integers(0, 999)), "complex": draw(st.booleans())}
         return s()
     if spec["check"] == "dual_nodal":
         @st.composite
